@@ -173,6 +173,10 @@ func c01RunOne(src string) (status, msg string) {
 			}
 		}
 		ctx := newDeadlineCtx(400, 300*time.Millisecond)
+		if strings.HasPrefix(src, "#long\n") {
+			// programs whose goroutines work on the scopes the main goroutine copies: they need time, not statements
+			ctx = newDeadlineCtx(4000000, 900*time.Millisecond)
+		}
 		_, err = vm.RunContext(ctx, c01Env(), &vm.Options{Debug: false}, stmt)
 		if err != nil {
 			done <- res{"err", err.Error()}
@@ -198,7 +202,16 @@ func c01BigStruct() string {
 }
 
 func c01Degenerate() []string {
-	return append(c01DegenerateForms(),
+	var long []string
+	// script goroutines that write the variables of a module (and of the scopes around it) while the main goroutine assigns the
+	// module to a name, which copies those scopes: scopes are shared by design and guarded by their own locks
+	for _, writer := range []string{"m.v0 = i", "m.v0 = i; m.v1 = i + 1", "top = i", "m.v0++", "delete(\"gone\"); gone = i"} {
+		for _, copier := range []string{"c = m", "var c = m", "c, d = m, m", "func() { c = m }()", "x = [m][0]; c = x"} {
+			long = append(long, "#long\ntop = 0; gone = 0\nmodule m { v0 = 0; v1 = 1; v2 = 2; v3 = 3; v4 = 4; v5 = 5; v6 = 6; v7 = 7 }\n"+
+				"for w = 0; w < 4; w++ { go func() { for i = 0; i < 1500; i++ { "+writer+" } }() }\nfor i = 0; i < 1500; i++ { "+copier+" }\n\"done\"")
+		}
+	}
+	return append(append(c01DegenerateForms(), long...),
 		// a script function handed to the bundled time package runs on the timer's goroutine
 		"t = import(\"time\"); t.AfterFunc(1000000, func() { throw \"on the timer goroutine\" }); t.Sleep(60000000)",
 		"t = import(\"time\"); t.AfterFunc(1000000, func() { x = 1 }); t.Sleep(30000000)",
